@@ -87,13 +87,14 @@ def census(repo):
     return out
 
 
-def rule_G4(ck):
+def rule_G4(ck, modules=None, floor=5):
+    """modules: restrict the census to stores made by functions of these modules (C10 uses the operand encoders only)"""
     repo = ck.repo
     fields = token_fields(repo)
     toks = token_classes(repo)
     if len(toks) < 15 or len(fields) < 15:
         ck.unknown(f"token class hierarchy not recognised ({len(toks)} classes, {len(fields)} fields)")
-    stores = census(repo)
+    stores = [x for x in census(repo) if modules is None or x[0].split('::')[0] in modules]
     for q, n, recv, attr, kind in stores:
         why = EXCEPTIONS.get((q, attr))
         idem = IDEMPOTENT_FUNCS.get(q)
@@ -116,5 +117,5 @@ def rule_G4(ck):
             ck.violation(n, f"compile-phase code writes field '{attr}' of a parse-tree node ({'a structural field set by the parser' if structural else 'a node field'}): the tree is shared by every compilation of that node "
                             "('.repeat' bodies, repeated '.include'), so later copies see the modified tree / a value cached for another position",
                          construct=f"{recv}.{attr} = …")
-    if len(stores) < 5:
-        ck.unknown(f"only {len(stores)} attribute stores found in compile-phase code (16 confirmed by hand)")
+    if len(stores) < floor:
+        ck.unknown(f"only {len(stores)} attribute stores found in compile-phase code (16 confirmed by hand in all modules)")
